@@ -1,4 +1,5 @@
 import HecsModel.Model.WorldJudge
+import HecsModel.Model.BitsJudge
 /-
   `hecs_judge`: reads a trace on stdin, one request per line, answers one line per request.
 
@@ -61,6 +62,13 @@ def stepLine (st : JState) (line : String) : JState × String :=
             | some r =>
               if r.trimAscii.toString == model then ({ st with worlds := ws }, "ok")
               else ({ st with worlds := ws, diverged := true }, "DIFF model=" ++ model)
+    | "bits" =>
+      match BitsJudge.stepLine lhs with
+      | .error m => (st, "ERR " ++ m)
+      | .ok model =>
+        match rhs with
+        | none => (st, "MODEL " ++ model)
+        | some r => if r.trimAscii.toString == model then (st, "ok") else (st, "SPEC model=" ++ model)
     | e => (st, "ERR unknown engine " ++ e)
 
 partial def loop (h : IO.FS.Stream) (out : IO.FS.Stream) (st : JState) : IO Unit := do
